@@ -45,11 +45,12 @@ def oracle(h, arrivals, horizon):
         j += 1
 
 
-def run_impl(h, arrivals, horizon, kinds, sends=(), crumbs=()):
+def run_impl(h, arrivals, horizon, kinds, sends=(), crumbs=(), flow=()):
     """Real connection with keepalive K = 2h units; returns [('P', t) | ('X', t)] in units.
     sends: times at which the CLIENT writes a command - the property counts the device's messages only.
     crumbs: times (after the last arrival) at which the device sends one more byte of a frame that is never completed - bytes
-    that do not complete a message are not messages."""
+    that do not complete a message are not messages.
+    flow: (time, 'pause' | 'resume') - the transport reports back-pressure; the keep-alive does not depend on it."""
     from aioesphomeapi import api_pb2 as pb
     from aioesphomeapi.core import PingFailedAPIError
     K = 2 * h * UNIT
@@ -71,13 +72,16 @@ def run_impl(h, arrivals, horizon, kinds, sends=(), crumbs=()):
                     orig(expected)
             conn.on_stop = on_stop
             n0 = len(tr.writes)
-            schedule = sorted([(a, 0, k) for a, k in zip(arrivals, kinds)] + [(t, 1, 0) for t in sends] + [(t, 2, i) for i, t in enumerate(crumbs)])
+            schedule = sorted([(a, 0, k) for a, k in zip(arrivals, kinds)] + [(t, 1, 0) for t in sends] + [(t, 2, i) for i, t in enumerate(crumbs)]
+                              + [(t, 3, 0 if w == "pause" else 1) for t, w in flow])
             for a, what, k in schedule:
                 await simnet.advance(loop, to=t0 + a * UNIT)
                 if stops:
                     break
                 if what == 0:
                     tr.feed(simnet.plain_msg(msgs[k % len(msgs)]))
+                elif what == 3:
+                    (tr.protocol.pause_writing if k == 0 else tr.protocol.resume_writing)()
                 elif what == 2:
                     tr.feed(b"\x00" if k == 0 else b"\x80")      # preamble, then length-varint continuation bytes for ever
                 else:
@@ -135,7 +139,7 @@ def run(rep, tier, seed):
     rng = random.Random(seed)
     rep.coverage["rule"] = (
         "keepalive K in {0.25,1,2.5,5,7,15,20,20.5,30,60} s x arrival schedules (grid of K/16 with +-2^-10 s jitter, edges around every tick and pong deadline, "
-        "bursts, single message, chatty peers with gaps just under/over K, 2K, 4.5K, messages inside the pong window, total silence) of valid messages of 6 types, every third schedule with the client itself writing commands throughout, every fourth with single bytes of a never completed frame trickling in after the last message; "
+        "bursts, single message, chatty peers with gaps just under/over K, 2K, 4.5K, messages inside the pong window, total silence) of valid messages of 6 types, every third schedule with the client itself writing commands throughout, every fourth with single bytes of a never completed frame trickling in after the last message, every fifth with the transport reporting back-pressure (pause_writing, sometimes resume_writing); "
         "arrivals exactly at a timer instant are excluded (order of equal timers is loop-internal); non-trivial = at least one ping is written; distinct by (K, schedule)")
     proofs_ok = rep.proofs(VFILE)
     ok, log = common.build_driver()
@@ -167,7 +171,14 @@ def run(rep, tier, seed):
             start = (max(arr) if arr else 0) + rng.randrange(1, 3 * h)
             crumbs = [t for t in range(start, hz, rng.choice([h + 1, 2 * h - 3, 3 * h + 7])) if t % h != 0 and t not in sends][:150]
             rep.bump("crumbs")
-        impl = run_impl(h, arr, hz, kinds, sends, crumbs)
+        flow = []
+        if ci % 5 == 2:
+            # the peer stops reading: the transport's buffer fills and it tells the protocol so (for good, or for a while)
+            t1 = rng.randrange(1, max(2, 2 * h))
+            flow = [(t1, "pause")] + ([(t1 + rng.randrange(1, 6 * h), "resume")] if rng.random() < 0.4 else [])
+            flow = [(t, w) for t, w in flow if t % h != 0 and t not in arr and t not in sends and t not in crumbs]
+            rep.bump("back-pressure")
+        impl = run_impl(h, arr, hz, kinds, sends, crumbs, flow)
         exp = oracle(h, arr, hz)
         model = [(x[0], int(x[1:])) for x in mo.split(",") if x]
         rep.bump("mode:" + mode)
@@ -188,7 +199,7 @@ def run(rep, tier, seed):
             else:
                 sig, what = "C10/death-time", f"death {ix} vs expected {ex_} (units of 1/1024 s)"
             rep.violation(sig, f"K={2 * h * UNIT} s, arrivals {[a * UNIT for a in arr][:10]}: {what}",
-                          {"kind": "impl-case", "h": h, "arrivals": arr, "horizon": hz, "kinds": kinds, "client_sends": sends, "crumbs": crumbs, "expected": exp, "observed": impl})
+                          {"kind": "impl-case", "h": h, "arrivals": arr, "horizon": hz, "kinds": kinds, "client_sends": sends, "crumbs": crumbs, "flow": flow, "expected": exp, "observed": impl})
         if model != impl:
             disagreements.append({"h": h, "arrivals": arr, "horizon": hz, "model": model[:20], "impl": impl[:20]})
     rep.coverage["disagreements"] = len(disagreements)
@@ -205,7 +216,7 @@ def replay(path):
     if d.get("kind") != "impl-case":
         print("nothing to replay:", d.get("kind"))
         return 0
-    impl = run_impl(d["h"], d["arrivals"], d["horizon"], d["kinds"], d.get("client_sends", ()), d.get("crumbs", ()))
+    impl = run_impl(d["h"], d["arrivals"], d["horizon"], d["kinds"], d.get("client_sends", ()), d.get("crumbs", ()), [tuple(x) for x in d.get("flow", ())])
     exp = oracle(d["h"], d["arrivals"], d["horizon"])
     print("observed:", impl)
     print("expected:", exp)
